@@ -6,10 +6,14 @@
   requires it, for every schema (any nesting of non-presence containers, choices within cases) and every
   set of configured names; cardinality = min/max; explicit data is kept by the decoration; the
   specification of the defaults only ever adds a default for an absent node.  The equality of the
-  decoration with the specification of "defaults in use" (IsActiveDefault vs the structural recursion),
-  idempotence and the unique check are compared by the correspondence stream only (`…_partial`).
+  unique check (after the repair of `getUniqueKey`): the key written for a tuple of values is injective, so the
+  groups the check reports are exactly the classes of entries that agree on every leaf of the set, and on
+  unique sets whose paths end at leaves with a value this is the specification's `agreeing`.  The equality of
+  the decoration with the specification of "defaults in use" (IsActiveDefault vs the structural recursion)
+  and idempotence are compared by the correspondence stream only.
 -/
 import YV.Proofs.YData
+import YV.Proofs.YUnique
 namespace YV.Props.C18
 open YV YV.Y YV.SC YV.D YV.DS
 
@@ -46,6 +50,28 @@ theorem C18_explicit_kept (top : List (SN τ)) (root : DN) : restrictTo (decorat
 theorem C18_default_only_if_absent (cfg : List Tok) (kids : List (SN τ)) (x : DN) (h : x ∈ defaultsS cfg kids) :
     cfg.contains x.name = false ∧ ∃ n ∈ dataKids kids, n.name = x.name :=
   ⟨defaultsS_absent cfg x kids h, defaultsS_names cfg x kids h⟩
+
+/-- **C18 (unique, the key).** different tuples of values never share a key — whatever bytes the values
+    contain (the defect repaired in 8238fb7: joined by U+00B7, ("x·x","x") and ("x","x·x") collided) -/
+theorem C18_unique_key_injective (vs ws : List Bytes) (h : encTuple vs = encTuple ws) : vs = ws :=
+  encTuple_inj vs ws h
+
+/-- **C18 (unique).** the groups `checkUnique` reports are the classes (of two or more entries, in order of
+    first occurrence) of entries whose resolved values agree leaf by leaf; entries lacking a leaf of the set
+    are not examined -/
+theorem C18_unique_by_tuple (kids : List (SN τ)) (entries : List DN) (u : List (List Tok)) :
+    uniqueGroups kids entries u = groups (tupled kids entries u) := uniqueGroups_by_tuple kids entries u
+
+/-- on unique sets whose paths end at leaves carrying a value (what the compiler and a valid tree guarantee)
+    the model's groups are the specification's -/
+theorem C18_unique (kids : List (SN τ)) (entries : List DN) (u : List (List Tok))
+    (h : ∀ e ∈ entries, ∀ p ∈ u, goodPath kids e.kids p) :
+    uniqueGroups kids entries u = agreeing kids entries u := uniqueGroups_eq_agreeing kids entries u h
+
+/-- the joined key of the unrepaired code was not injective (the witness found by the proof attempt) -/
+example : ([[120, 0xC2, 0xB7, 120], [120]].intersperse [0xC2, 0xB7]).flatten =
+    ([[120], [120, 0xC2, 0xB7, 120]].intersperse [0xC2, 0xB7] : List Bytes).flatten := by decide
+example : encTuple [[120, 0xC2, 0xB7, 120], [120]] ≠ encTuple [[120], [120, 0xC2, 0xB7, 120]] := by decide
 
 /-! non-vacuity: container c (non-presence) { choice ch { mandatory; case a { leaf x (mandatory) ; leaf y } } } -/
 def demoInner : List (SN Unit) :=
